@@ -76,6 +76,14 @@ theorem children_ids_distinct {s : Store} {ρ : ObjId → Role} (h : ReachableFr
     s.attr? b.2 "entity_id" ≠ some id :=
   fun hidb => hne (ids_pairwise_distinct h a.2 b.2 id hida hidb)
 
+/-- the has-query of a Group by HANDLE (name and id together, `GroupHDF5::findEntityGroup`): members are linked under their id, so
+    an entity whose id is not linked there is not a member — whatever another member is called (false of the pinned tree, D44:
+    the lookup fell back to a scan by name and `removeTag(entity)` removed a member of the same name) -/
+theorem grpFind_by_handle_needs_the_id_link (s : Store) (grp p : ObjId) (kind iname iid : String)
+    (hp : s.optGroup grp (groupContainer kind) = some p) (hn : iname.isEmpty = false) (hi : iid.isEmpty = false)
+    (hl : s.hasObject p iid = false) : grpFind s grp kind iname iid = none := by
+  simp [grpFind, hp, hn, hi, hl]
+
 /-- non-vacuity: a history with two blocks, an array, a deletion and a re-creation under the same name is kinded and fresh, the
     re-created array is a new object with a new id and the old id still sits on the unlinked object -/
 example :
